@@ -9,7 +9,7 @@ from .. import common as C
 from ..runner import run_given
 
 PROPERTY = 'C08'
-RULE = ("+,-,* whose result format is imposed by a sizing policy (same/largest/smallest/optimal), a constant operand (either side, op_input_size same/best), an explicit out object "
+RULE = ("+,-,* whose result format is imposed by a sizing policy (same/largest/smallest/optimal), a constant operand (either side, python number / numpy scalar / 0-d array, op_input_size same/best), an explicit out object "
         "or an out_like template: expected = exact Fraction result quantized (model of C01) into the imposed format under the governing configuration's rounding/overflow "
         "(first operand's, or out's / out_like's), with exact overflow/underflow flags, result config carrying the governing modes, out returned by identity and out_like not; "
         "signed result into unsigned out/out_like raises ValueError; raw == repr; unary -,+,abs exact when representable. Independent modes are drawn for x, y and the target so that "
@@ -19,7 +19,7 @@ ASSUMPTIONS = ['operands created from raw codes, no scale/bias', 'constants are 
 EXHAUSTIVE = False    # the whole quantifier is not enumerated; complete sub-domains are listed in EXHAUSTIVE_SUBDOMAINS
 EXHAUSTIVE_SUBDOMAINS = {'quick': ['all code pairs of sampled format pairs n_word<=4 x 4 sizing policies x 3 ops x 10 governing modes'],
                          'thorough': ['all code pairs of all format pairs n_word<=4 (n_frac 0..n_word-sign) x 4 policies x 3 ops x 10 modes']}
-REQUIRED_CLASSES = {'inexact-or-overflow': 2000, 'variant:sizing': 500, 'variant:const': 500, 'variant:out': 300, 'variant:out_like': 300, 'unary': 300}
+REQUIRED_CLASSES = {'inexact-or-overflow': 2000, 'variant:sizing': 500, 'variant:const': 500, 'variant:out': 300, 'variant:out_like': 300, 'unary': 300, 'const:numpy-left': 300, 'const:numpy-right': 300}
 
 OPS = ('add', 'sub', 'mul')
 SIZINGS = ('same', 'largest', 'smallest', 'optimal')
@@ -92,6 +92,10 @@ def check_imposed(ctx, case):
         v = exact(op, vx, vc) if (side == 'right' or op != 'sub') else exact(op, vc, vx)
         sig += '/%s/%s' % (side, ois)
         cf = float(c) if c.denominator != 1 or case.get('c_float') else int(c)
+        if case.get('c_numpy'):
+            # the same constant as a numpy scalar or 0-d array (on the left it reaches the object through numpy's dispatch)
+            cf = np.array(cf) if case['c_numpy'] == '0d' else (np.float64(cf) if isinstance(cf, float) else np.int64(cf))
+            sig += '/numpy-' + case['c_numpy']
 
         def do():
             x = F(kx, fx[0], fx[1], fx[2], raw=True, rounding=mx[0], overflow=mx[1], op_input_size=ois, op_method=method)
@@ -216,6 +220,8 @@ def replay(ctx, case):
 def classify(ctx, case):
     """Non-triviality: exact result inexact or out of range in the target (computed from the inputs only)."""
     ctx.cls('variant:' + case['variant'])
+    if case.get('c_numpy') and case['variant'] == 'const':
+        ctx.cls('const:numpy-' + case.get('side', 'right'))
 
 
 def fmts_c08(max_w, min_w=2):
@@ -276,7 +282,7 @@ def st_case(draw):
         den = 1 << draw(st.integers(0, 6))
         num = draw(st.integers(-300, 300))
         case.update(c_num=num, c_den=den, side=draw(st.sampled_from(['left', 'right'])), ois=draw(st.sampled_from(['same', 'best'])),
-                    c_float=draw(st.booleans()))
+                    c_float=draw(st.booleans()), c_numpy=draw(st.sampled_from([None, None, 'scalar', '0d'])))
     else:
         case['ft'] = list(draw(st.sampled_from(fl + fmts_c08(20, 13))))
         case['mt'] = list(draw(C.st_modes()))
